@@ -77,6 +77,10 @@ func (s *DiskKeyIndex) IteratorBetween(keyLower []byte, keyHigher []byte) (skipl
 
 	// due to the inclusivity of keyHigher, we want to exclude the next item if it's not an exact match
 	if !found {
+		if endOffset == 0 {
+			// keyHigher sorts before the first key, so nothing is in range
+			return s.newIterator(1, 0), nil
+		}
 		endOffset = endOffset - 1
 	}
 
